@@ -26,14 +26,14 @@ type Stream struct {
 	Term error    // delivered once In is drained (nil: reads starve)
 	Out  []byte   // bytes accepted from writes, in order
 
-	DeferRead  func() bool    // nil = inline
-	DeferWrite func() bool    // nil = inline
+	DeferRead  func() bool     // nil = inline
+	DeferWrite func() bool     // nil = inline
 	Accept     func(n int) int // blocking Write: bytes accepted of n (nil = all)
 	// AsyncAccept: bytes one attempt of an asynchronous write takes of the n that are left (nil = all). A plain
 	// AsyncWrite completes with what the first attempt took (that is its contract); an AsyncWriteAll stays in flight
 	// and takes more with every StepWrite until everything is out.
 	AsyncAccept func(n int) int
-	WriteErr   func() error   // consulted before every write; non-nil fails the write having taken nothing
+	WriteErr    func() error // consulted before every write; non-nil fails the write having taken nothing
 
 	PendingRead  *pendingOp
 	PendingWrite *pendingOp
